@@ -27,7 +27,7 @@ CasesFor(k) ==
                           \cup {[op |-> "clamp", n |-> n, lo |-> lo, hi |-> lo + w] : n \in -6..6, lo \in {-5, -1, 0, 2}, w \in {0, 1, 4}}
     \* values a power of two away from an integer on either side of the DEFAULT tolerances; spell: tolerances left to their defaults / passed explicitly
     [] k = "snapfine" -> {[op |-> "snapfine", f |-> f, n |-> n, sg |-> sg, es |-> es, et |-> et, ew |-> ew, spell |-> sp] :
-                            f \in {"scale", "scale_inv", "affine"}, n \in {1, 2, 3, -2}, sg \in {1, -1}, es \in {0, 17, 19, 21, 23}, et \in {0, 7, 9, 11, 13}, ew \in {0, 24, 25, 28, 30},
+                            f \in {"scale", "scale_inv", "affine"}, n \in {1, 2, 3, -2, 4096}, sg \in {1, -1}, es \in {0, 10, 12, 17, 19, 21, 23}, et \in {0, 7, 9, 11, 13}, ew \in {0, 24, 25, 28, 30},
                             sp \in {"default", "explicit"}}
     [] k = "align" -> {[op |-> "align", x |-> x] : x \in AlignXs}
     [] k = "snapgrid" -> {[op |-> "snapgrid", x0 |-> x0, sp |-> sp, r |-> r, o |-> o, tol |-> t] : x0 \in SG.x0, sp \in SG.sp, r \in SG.r, o \in SG.o, t \in {<<1, 100>>}}
@@ -38,8 +38,10 @@ CasesFor(k) ==
     \* mappings, not about the size of their numbers (degrees per pixel ~ 2^-14 ... thousands of metres per pixel)
     [] k = "rws" -> {[op |-> "rws", R |-> R, w2 |-> w, sx2 |-> sx, sy2 |-> sy, mag |-> m] : R \in Rots, w \in {0, 1, -1, 2, -2}, sx \in {2, -2, 1, 4}, sy \in {2, -2, -1, 6}, m \in Mags}
     [] k = "affpts" -> {[op |-> "affpts", A |-> A, X |-> X, mag |-> m] : A \in AffInts, X \in PtSets, m \in Mags}
-    [] k = "axis" -> {[op |-> "axis", x0 |-> x0, rx |-> rx, nx |-> nx, y0 |-> 3, ry |-> ry, ny |-> ny] :
-                        x0 \in {0, -5, 7}, rx \in {2, -2, 1, 5}, nx \in {1, 2, 5}, ry \in {-2, 3}, ny \in {1, 3}}
+    \* fb: the fallback resolution handed over - the true spacing, or (for the axes that HAVE two or more labels, where it must be ignored) a wrong one
+    \* of the other sign, or none at all when no axis needs it
+    [] k = "axis" -> {[op |-> "axis", x0 |-> x0, rx |-> rx, nx |-> nx, y0 |-> 3, ry |-> ry, ny |-> ny, fb |-> fb] :
+                        x0 \in {0, -5, 7}, rx \in {2, -2, 1, 5}, nx \in {1, 2, 5}, ry \in {-2, 3}, ny \in {1, 3}, fb \in {"true", "wrong", "none"}}
     [] k = "bin1d" -> {[op |-> "bin1d", sz |-> sz, o |-> o, dir |-> d, idx |-> i] : sz \in {4, 6, 1}, o \in {0, -6, 2}, d \in {1, -1}, i \in {-2, 0, 3}}
     [] k = "poly" -> {[op |-> "poly", kind |-> kd, nn |-> nn, T |-> T, mag |-> (((T[1] + 2 * T[2] + 3 * T[4] + T[5] + 6) % 3) * 13) - 14] : kd \in {"affine", "bilinear", "biquad"}, nn \in {3, 4, 6, 8, 9, 12},
                         \* input transforms: every invertible integer matrix with entries in -1..2 (scales, mirrors, rotations, shears in the x row only,
